@@ -275,7 +275,14 @@ func checkPipelinesFaithful(c *driver.Ctx, t *topo, cfg *otelcol.Config, text st
 	}
 }
 
-var strictVariants = []string{"dangling-receiver", "dangling-processor", "dangling-exporter", "dangling-extension", "duplicate-processor", "no-receivers", "no-exporters", "ambiguous-connector-receiver", "ambiguous-connector-exporter"}
+// cross-section references: an id that IS defined — in another section, and validly used there
+var crossPairs = [][2]string{{"receivers", "processors"}, {"receivers", "exporters"}, {"processors", "receivers"}, {"processors", "exporters"}, {"exporters", "receivers"}, {"exporters", "processors"},
+	{"receivers", "extensions"}, {"processors", "extensions"}, {"exporters", "extensions"}, {"extensions", "receivers"}, {"extensions", "processors"}, {"extensions", "exporters"}}
+
+// ids that exist in exactly one section of the generated topologies
+var onlyIn = map[string][]string{"receivers": {"nop/a", "nop/r2"}, "processors": {"batch", "batch/b", "memory_limiter"}, "exporters": {"debug", "nop/b"}, "extensions": {"zpages"}}
+
+var strictVariants = []string{"cross-section-reference", "cross-section-reference", "cross-section-reference", "dangling-receiver", "dangling-processor", "dangling-exporter", "dangling-extension", "duplicate-processor", "no-receivers", "no-exporters", "ambiguous-connector-receiver", "ambiguous-connector-exporter"}
 
 func runStrictVariant(c *driver.Ctx, i int64, rng *rand.Rand) {
 	c.Eval()
@@ -306,6 +313,8 @@ func runStrictVariant(c *driver.Ctx, i int64, rng *rand.Rand) {
 		pl[key] = nl
 	}
 	offender := ""
+	where := "-"
+	midText := ""
 	alsoOK := []string{}
 	switch variant {
 	case "dangling-receiver":
@@ -350,12 +359,82 @@ func runStrictVariant(c *driver.Ctx, i int64, rng *rand.Rand) {
 	case "ambiguous-connector-exporter":
 		offender = "nop/b"
 		t.root["connectors"].(map[string]any)[offender] = nil
+	case "cross-section-reference":
+		pair := crossPairs[(int(i)/len(strictVariants)+rng.Intn(len(crossPairs)))%len(crossPairs)]
+		from, as := pair[0], pair[1]
+		ids := onlyIn[from]
+		offender = ids[rng.Intn(len(ids))]
+		svc := t.root["service"].(map[string]any)
+		pls := svc["pipelines"].(map[string]any)
+		has := func(l any, id string) bool {
+			ll, _ := l.([]any)
+			for _, e := range ll {
+				if e == id {
+					return true
+				}
+			}
+			return false
+		}
+		// the valid use of the id in its own section
+		usedIn := t.pipelines[rng.Intn(len(t.pipelines))]
+		if from == "extensions" {
+			if !has(svc["extensions"], offender) {
+				svc["extensions"] = append(append([]any{}, svc["extensions"].([]any)...), offender)
+			}
+		} else {
+			up := pls[usedIn].(map[string]any)
+			if !has(up[from], offender) {
+				l, _ := up[from].([]any)
+				up[from] = append(append([]any{}, l...), offender)
+			}
+		}
+		midText = confgen.YAML(t.root, confgen.YAMLOpts{PlainStrings: true})
+		place := "same-pipeline"
+		if as == "extensions" {
+			place = "service-extensions"
+			svc["extensions"] = append(append([]any{}, svc["extensions"].([]any)...), offender)
+		} else {
+			target := usedIn
+			if from == "extensions" || rng.Intn(2) == 0 {
+				place = "other-pipeline"
+				target = "logs/" + tok(rng, "x")
+				for _, p := range t.pipelines {
+					if p != usedIn && rng.Intn(2) == 0 {
+						target = p
+					}
+				}
+				if _, ok := pls[target]; !ok {
+					pls[target] = map[string]any{"receivers": []any{"nop"}, "exporters": []any{"nop"}}
+				}
+			}
+			if from == "extensions" {
+				place = "pipeline"
+			}
+			tp := pls[target].(map[string]any)
+			l, _ := tp[as].([]any)
+			pos := rng.Intn(len(l) + 1)
+			tp[as] = append(append(append([]any{}, l[:pos]...), offender), l[pos:]...)
+			pid = target
+		}
+		where = from + "-as-" + as + "/" + place
+	}
+	if midText != "" {
+		// with the valid use only, the configuration must still be accepted
+		if _, le, ve, pv2, _ := loadAndValidate(midText); pv2 != nil || le != nil || ve != nil {
+			c.Inconclusive("cross-section control (valid use only) is not accepted")
+			c.Note("cross-section control invalid: %v %v", le, ve)
+			return
+		}
 	}
 	_ = alsoOK
 	text := confgen.YAML(t.root, confgen.YAMLOpts{PlainStrings: true})
 	wit := map[string]any{"variant": variant, "offender": offender, "pipeline": pid, "yaml": text}
 	_, lerr, verr, pv, stack = loadAndValidate(text)
 	c.Observe("strict_variants:"+variant, 1)
+	if where != "-" {
+		c.Distinct("cross_section_pairs", where)
+		wit["where"] = where
+	}
 	if c.Shard == 3 && variant == "duplicate-processor" {
 		c.Sample(map[string]any{"kind": "strictness", "variant": variant, "offender": offender, "pipeline": pid, "yaml": text, "load_error": fmt.Sprint(lerr), "validate_error": fmt.Sprint(verr)})
 	}
@@ -370,10 +449,10 @@ func runStrictVariant(c *driver.Ctx, i int64, rng *rand.Rand) {
 	}
 	switch {
 	case err == nil:
-		c.Violation("strict", fmt.Sprintf("%s (%s in pipeline %s) was accepted by load and validation", variant, offender, pid), wit, "variant", variant, "where", "-", "kind", "accepted")
+		c.Violation("strict", fmt.Sprintf("%s (%s in pipeline %s) was accepted by load and validation", variant, offender, pid), wit, "variant", variant, "where", where, "kind", "accepted")
 	case !strings.Contains(err.Error(), offender):
 		wit["error"] = err.Error()
-		c.Violation("strict", fmt.Sprintf("%s is rejected, but the error does not name %q: %s", variant, offender, clip(err.Error(), 300)), wit, "variant", variant, "where", "-", "kind", "not-named")
+		c.Violation("strict", fmt.Sprintf("%s is rejected, but the error does not name %q: %s", variant, offender, clip(err.Error(), 300)), wit, "variant", variant, "where", where, "kind", "not-named")
 	default:
 		c.Observe("strict_variants_rejected_and_named", 1)
 	}
